@@ -1414,6 +1414,12 @@ class SyncObj(object):
                 for i, consumer in enumerate(self.__consumers):
                     consumer._deserialize(consumersData[i])
 
+            if not clearJournal and len(self.__raftLog) >= 2 and self.__raftLog[0] != data[2] and \
+                    self.__getEntries(data[2][1], 2) == [data[2], data[1]]:
+                # The node was stopped after this dump had been written but before the journal
+                # was trimmed: trim it now instead of dropping the entries that follow the dump.
+                self.__deleteEntriesTo(data[2][1])
+
             if clearJournal or \
                     len(self.__raftLog) < 2 or \
                     self.__raftLog[0] != data[2] or \
